@@ -6,6 +6,7 @@ Property theorems only. `Gen.table` / `Gen.updates` are regenerated from
 re-checked against what the code says now. Names are lists of Unicode code points (`Codes`).
 -/
 import Paroxy.Gen.CompareSpans
+import Paroxy.Gen.Manual
 import Paroxy.Spec.CompareSpans
 import Paroxy.Proofs.Rank
 import Paroxy.Proofs.SpecKeys
@@ -175,5 +176,14 @@ example : (⟨.x, .y, .x, .y, .eq, .le, .le⟩ : Key).Holds (2, 3) (2, 7) := by 
 example : ¬ (⟨.x, .y, .x, .y, .eq, .le, .le⟩ : Key).Holds (2, 8) (2, 7) := by decide
 example : (codesOf "started by", (⟨.y, .x, .y, .x, .eq, .le, .le⟩ : Key)) ∈ aliases := by decide +kernel
 example : (codesOf "overlaps", codesOf "overlapped by") ∈ converses := by decide +kernel
+
+/-- **The manual's table.** The seven rows `X name Y | Y converse X | key` of
+docs/md/pipeline_documentation.md — re-read from /repo by the translator on every run
+(`Gen.manualRows`) — are exactly the specification's `manualDirect` / `converses` the theorems above
+are stated against: "the keys given in the user manual" is not a transcription that can drift. -/
+theorem C08_manual_table :
+    Gen.manualOk = true ∧
+    Gen.manualRows = (manualDirectS.zip conversesS).map fun p => (codesOf p.1.1, codesOf p.2.2, p.1.2.codes) := by
+  decide +kernel
 
 end Paroxy.Props.C08
